@@ -382,8 +382,27 @@ VPCompile(r) ==
         ELSE IF ic.ok /\ ic.v # r.ast THEN Rej("PARSER the query built differs from Parser.tla", <<ToJson(ic.v)>>)
         ELSE Acc
 
+(* ---- the helper API of node lists and compiled queries (coverage beyond the listed properties) ------- *)
+\* r.singular / r.qempty: JSONPathQuery.singular_query() / .empty(); r.lempty: JSONPathNodeList.empty();
+\* r.paths: node list .paths(); r.helpers_ok: values() / items() / node.root agree with the nodes themselves
+VApi(r) ==
+    LET reg == RegOf(r)
+        cv  == CompileVerdict(r.q, reg, LoOf(r), HiOf(r))
+    IN  IF cv.v # "accept" THEN Acc
+        ELSE LET segs == Parse(r.q, FALSE).v
+             IN  IF r.singular # IsSingularSegs(segs) THEN Rej("API singular_query() differs from the RFC's definition", <<r.singular>>)
+                 ELSE IF r.qempty # (segs = <<>>) THEN Rej("API JSONPathQuery.empty() differs", <<r.qempty>>)
+                 ELSE IF DcSegs(segs, r.doc, reg) \/ r.out # "ok" THEN Acc
+                 ELSE LET nl == Find(segs, r.doc, reg)
+                      IN  IF r.lempty # (nl = <<>>) THEN Rej("API JSONPathNodeList.empty() differs", <<r.lempty>>)
+                          ELSE IF r.paths # [k \in 1..Len(nl) |-> NormalizedPath(nl[k].loc)] THEN Rej("API paths() differs", <<>>)
+                          ELSE IF ~r.helpers_ok THEN Rej("API values() / items() / node.root disagree with the nodes", <<>>)
+                          ELSE IF IsSingularSegs(segs) /\ Len(nl) > 1 THEN Rej("API a singular query selected more than one node", <<Len(nl)>>)
+                          ELSE Acc
+
 Verdict(r) ==
     CASE r.op = "compile" -> VCompile(r)
+      [] r.op = "api" -> VApi(r)
       [] r.op = "pcompile" -> VPCompile(r)
       [] r.op = "lex"     -> VLex(r)
       [] r.op = "t1"      -> VT1(r)
